@@ -194,9 +194,10 @@ Lemma wf_kernel_parts ex m : wf_kernel ex m = true ->
   forallb (fun f => Nat.eqb (count_fig f (m_lines m)) 1) row_figs = true /\
   Nat.leb (count_fig FPrivateHugetlb (m_lines m)) 1 = true.
 Proof.
-  unfold wf_kernel. intros H.
-  apply andb_true_iff in H as [H H7]. apply andb_true_iff in H as [H H6].
-  apply andb_true_iff in H as [H H5]. apply andb_true_iff in H as [H H4].
+  unfold wf_kernel, wf_header, wf_body. intros H.
+  apply andb_true_iff in H as [Hh Hb].
+  apply andb_true_iff in Hb as [Hb H7]. apply andb_true_iff in Hb as [H5 H6].
+  apply andb_true_iff in Hh as [H H4].
   apply andb_true_iff in H as [H H3]. apply andb_true_iff in H as [H1 H2].
   apply negb_true_iff in H2. auto 10.
 Qed.
